@@ -111,6 +111,8 @@ class Interp:
         self.concrete_loops = False
         self.name_intervals = True
         self.symbolic_tables = None     # id(list) -> name: lookups with a bit-field index stay symbolic
+        self.inverse_tables = {}        # name of table A -> name of table B with A[B[x]] = x
+        self.oob = []                   # (index, size) of reads of constant tables with a concrete index outside the table
         self.const_override = None      # qualified global name -> value: analyse the code for another value of a constant
         self.callsites_seen = set()
 
@@ -272,7 +274,12 @@ class Interp:
             if isinstance(i, int):
                 if 0 <= i < len(v):
                     return rec(v[i], p[1:])
+                self.oob.append((i, len(v)))
                 return TOP
+            if isinstance(i, tuple) and i and i[0] == 'tl' and len(p) == 1 and isinstance(v, list) and self.symbolic_tables \
+                    and self.inverse_tables.get(self.symbolic_tables.get(id(v))) == i[1]:
+                # hex_tab[b64_tab[x]] = x : the two tables are mutual inverses on the alphabet (checked by the table rule)
+                return i[2]
             if isinstance(i, tuple) and i and i[0] in ('bf', 'shr', 'l') and len(p) == 1 and isinstance(v, list) \
                     and self.symbolic_tables and id(v) in self.symbolic_tables:
                 ri = rng(i, st.sym)
